@@ -3,7 +3,7 @@
 P="$1"; ID="$2"; TIER="${3:-quick}"
 cd /repo || exit 2
 if ! git diff --quiet; then echo "repo dirty"; exit 2; fi
-if ! git apply --3way "$P" 2>/tmp/apply.err && ! git apply "$P" 2>>/tmp/apply.err; then echo "APPLY FAILED"; cat /tmp/apply.err; git checkout -- . ; exit 2; fi
+if ! git apply "$P" 2>/tmp/apply.err; then echo "APPLY FAILED"; cat /tmp/apply.err; git reset -q --hard HEAD; exit 2; fi
 git reset -q   # un-stage (3way stages)
 cd /verif && timeout 3000 ./check "$ID" --tier "$TIER" 2>&1 | grep -E "VIOLATION|KNOWN|MACHINERY|^\[C|what:" | cut -c1-400 | head -12
 RC=${PIPESTATUS[0]}
